@@ -91,8 +91,9 @@ def model_stage(ctx):
         jobs.append(lambda progs=progs, files=files, live=live, i=i: vlib.tlc(
             ctx, "MCSystem", _cfg("Spec", progs, files, invariants=SAFETY, properties=["Terminates"] if live else [],
                                   deadlock=True),
-            workers=w, label="system-%s-%s%s" % ("".join(map(str, progs)), files, "-live" if live else ""),
-            timeout=1800, coverage=(i == 0)))
+            workers=(max(w, vlib.NCPU - 4) if files == "Files1to3" else w),
+            label="system-%s-%s%s" % ("".join(map(str, progs)), files, "-live" if live else ""),
+            timeout=2400, coverage=(i == 0 and not ctx.thorough)))
     expect = {
         "MUT_CloseBeforeDrain": ([], []),        # NoPanic or ExactlyOnce - whichever TLC meets first
         "MUT_NoFinish": ([], []),
@@ -105,10 +106,11 @@ def model_stage(ctx):
             ctx, "MCSystem", _cfg("Spec", (2,), "TwoTail", on=[sw], invariants=SAFETY, properties=["Terminates"],
                                   deadlock=True), sw, workers=2, timeout=900))
     res = _par(jobs, width=max(2, vlib.NCPU // w))
-    never = sorted(set(res[0].zero_cov) - {"FwdSendClosed"})       # only reachable under MUT_CloseBeforeDrain
-    ctx.cov["actions_never_taken"] = never
-    if never:
-        raise vlib.InfraError("System actions never taken (vacuous model): %s" % never)
+    if not ctx.thorough:
+        never = sorted(set(res[0].zero_cov) - {"FwdSendClosed"})       # only reachable under MUT_CloseBeforeDrain
+        ctx.cov["actions_never_taken"] = never
+        if never:
+            raise vlib.InfraError("System actions never taken (vacuous model): %s" % never)
     for sw, r in zip(names, res[-len(names):]):
         ctx.cov.setdefault("switch_counterexamples", {})[sw] = r.violated
 
